@@ -138,8 +138,8 @@ namespace {
          case 2: return L.class_type();             // (`N : class`, `N : enum`: what a type declaration is typed by)
          case 3: return L.enum_type();
          case 4: return L.get_pointer(L.int_type());
-         case 5: return L.get_pointer(L.bool_type());
-         case 6: return L.get_reference(L.int_type());
+         case 5: return L.get_qualified(L.const_qualifier(), L.int_type());          // (types that differ from `int` in top-level
+         case 6: return L.get_qualified(L.volatile_qualifier(), L.int_type());       //  qualifiers only: other types all the same)
          default: return L.get_pointer(L.get_pointer(L.int_type()));
          }
       };
@@ -413,15 +413,31 @@ namespace {
       if (n == nullptr or t == nullptr) return "bad-op";
       const ipr::Decl* d = nullptr;
       auto& S = *cx.scope;
-      if (kind == "alias") d = S.make_alias(*n, *cx.lex->make_literal(*t, u8"0"));
-      else if (kind == "var") d = S.make_var(*n, *t);
+      if (kind == "alias") {
+         // the alias of something whose type is *t: a literal of that type -- or, when *t is `class` / `enum`, a user-defined type itself
+         // (`using A = S;`: the aliasee IS a type, and its own type is `class`, not `typename`)
+         const ipr::Expr* init = nullptr;
+         if (t == &cx.lex->class_type()) init = cx.lex->make_class(*cx.unit->global_region());
+         else if (t == &cx.lex->enum_type()) init = cx.lex->make_enum(*cx.unit->global_region(), ipr::Enum::Kind::Scoped);
+         else init = cx.lex->make_literal(*t, u8"0");
+         d = S.make_alias(*n, *init);
+      }
+      else if (kind == "var") {
+         auto* v = S.make_var(*n, *t);
+         // every third variable declaration is recorded as THE definition of its declaration set (what a front end does when it meets
+         // the defining declaration, first or not): look-ups still select the first declaration, master() is still the first
+         if (cx.decls.size() % 3 == 2) v->decl_data.master_data->def = v;
+         d = v;
+      }
       else if (kind == "field") d = S.make_field(*n, *t);
       else if (kind == "bitfield") d = S.make_bitfield(*n, *t);
       else if (kind == "typedecl") d = S.make_typedecl(*n, *t);
       else if (kind == "fundecl") {
          auto f = dynamic_cast<const ipr::Function*>(t);
          if (f == nullptr) return "bad-op";
-         d = S.make_fundecl(*n, *f);
+         auto* fd = S.make_fundecl(*n, *f);
+         if (cx.decls.size() % 3 == 1) fd->decl_data.master_data->def = fd;
+         d = fd;
       }
       else if (kind == "primary" or kind == "secondary") {
          auto f = dynamic_cast<const ipr::Forall*>(t);
